@@ -157,19 +157,37 @@ def main(chk):
                 exp_ = oracle(errs, 0.5 * eps / ms_)
                 info.update(qualities=errs, sensitivity=ms_)
             else:   # scales and samplers
+                # a HISTORY of calls on one Mechanism object: repeated (eps, delta) with different sensitivities, the
+                # adjacency flag toggled in between - every call must be calibrated from its own arguments and the current flag
+                from autodp import privacy_calibrator
                 bounded = rng.random() < 0.5
                 M = mech.Mechanism(1.0, 0, bounded=bounded, prng=fp)
-                l1 = rng.choice([1.0, 2.0, 0.5, 3.0])
-                b = M.laplace_noise_scale(l1, eps)
-                M.laplace_noise(b, 5); M.gaussian_noise(2.5 * b, 3)
-                from autodp import privacy_calibrator
-                s1 = privacy_calibrator.ana_gaussian_mech(eps, 1e-6)['sigma']
-                g = M.gaussian_noise_scale(l1, eps, 1e-6)
-                got = np.array([b, g, fp.calls[0][2], fp.calls[1][2]])
-                lines.append('laplace_scale %d %s %s' % (bounded, hx(l1), hx(eps))); pend.append((dict(info, bounded=bounded, what='laplace scale'), [b], [(2 if bounded else 1) * l1 / eps]))
-                lines.append('gaussian_scale %d %s %s' % (bounded, hx(l1), hx(s1))); pend.append((dict(info, bounded=bounded, what='gaussian scale'), [g], [(2 if bounded else 1) * l1 * s1]))
-                if fp.calls[0][:3] != ('laplace', 0, b) or fp.calls[1][:3] != ('normal', 0, 2.5 * b) or fp.calls[0][3] != 5 or fp.calls[1][3] != 3:
-                    chk.violation(dict(kind='sampler'), 'noise sampler does not draw with the scale/size it is given', dict(info, calls=str(fp.calls)), found_input=True)
+                eps_pool = [eps, eps, rng.choice([0.1, 0.5, 1.0, 2.0])]
+                for step in range(rng.choice([2, 3, 4, 5])):
+                    if step and rng.random() < 0.4:
+                        bounded = not bounded; M.bounded = bounded
+                    e_ = rng.choice(eps_pool); dl = rng.choice([1e-6, 1e-6, 1e-9])
+                    l1 = rng.choice([1.0, 2.0, 0.5, 3.0]); l2 = rng.choice([1.0, 1.5, 0.25])
+                    ncalls = len(fp.calls)
+                    b = M.laplace_noise_scale(l1, e_)
+                    M.laplace_noise(b, 5); M.gaussian_noise(2.5 * b, 3)
+                    s1 = privacy_calibrator.ana_gaussian_mech(e_, dl)['sigma']
+                    g = M.gaussian_noise_scale(l2, e_, dl)
+                    hinfo = dict(info, bounded=bounded, step=step, eps=e_, delta=dl, l1=l1, l2=l2)
+                    lines.append('laplace_scale %d %s %s' % (bounded, hx(l1), hx(e_))); pend.append((dict(hinfo, what='laplace scale'), [b], [(2 if bounded else 1) * l1 / e_]))
+                    lines.append('gaussian_scale %d %s %s' % (bounded, hx(l2), hx(s1))); pend.append((dict(hinfo, what='gaussian scale'), [g], [(2 if bounded else 1) * l2 * s1]))
+                    c0, c1 = fp.calls[ncalls], fp.calls[ncalls + 1]
+                    if c0[:3] != ('laplace', 0, b) or c1[:3] != ('normal', 0, 2.5 * b) or c0[3] != 5 or c1[3] != 3:
+                        chk.violation(dict(kind='sampler'), 'noise sampler does not draw with the scale/size it is given', dict(hinfo, calls=str(fp.calls[ncalls:])), found_input=True)
+                    # best_noise_distribution must draw with the scale computed from ITS arguments (Laplace iff sqrt2*b < sigma)
+                    ncalls = len(fp.calls)
+                    M.best_noise_distribution(l1, l2, e_, dl)(4)
+                    eb, eg = (2 if bounded else 1) * l1 / e_, (2 if bounded else 1) * l2 * s1
+                    want = ('laplace', 0, eb) if math.sqrt(2) * eb < eg else ('normal', 0, eg)
+                    cb = fp.calls[ncalls]
+                    if cb[0] != want[0] or not close([cb[2]], [want[2]], 1e-12) or cb[3] != 4:
+                        chk.violation(dict(kind='sampler', what='best_noise_distribution'), 'best_noise_distribution draws %s(scale=%r), calibrated value is %s(scale=%r)' % (cb[0], cb[2], want[0], want[2]),
+                                      dict(hinfo, call=str(cb), expected=str(want)), found_input=True)
                 continue
         except Exception as e:
             chk.violation(dict(kind='exception', primitive=prim, what=common.exc_kind(e)), 'primitive %s raised %s: %s' % (prim, common.exc_kind(e), str(e)[:80]), info, found_input=True)
